@@ -38,7 +38,7 @@ from . import (
     simplify,
     traversal,
 )
-from .entities import Entity
+from .entities import Entity, Line
 from .exchange.export import export_path
 from .util import concatenate
 
@@ -545,6 +545,8 @@ class Path(parent.Geometry):
         }
 
         entities_ok = np.ones(len(self.entities), dtype=bool)
+        # arcs that were replaced by their chord, by the two vertices
+        chords = collections.defaultdict(list)
 
         for index, entity in enumerate(self.entities):
             # what kind of entity are we dealing with
@@ -565,12 +567,31 @@ class Path(parent.Geometry):
                 elif len(points) < 2:
                     # lines need two or more vertices
                     entities_ok[index] = False
+            elif kind == "Arc" and points[0] == points[-1]:
+                # the first and last control point were merged into one vertex:
+                # the arc is smaller than the merge distance, it can not be fit
+                # anymore and what it connected stays connected without it
+                entities_ok[index] = False
             elif kind == "Arc" and len(points) != 3:
+                if len(points) == 2 and not entity.closed:
+                    # the arc is shorter than the merge distance but its ends
+                    # are still two vertices: removing it would open the loop
+                    # it is part of, so keep it as the chord between them
+                    self.entities[index] = Line(
+                        points=points, metadata=entity.metadata, color=entity.color
+                    )
+                    chords[tuple(sorted(points))].append(index)
+                    continue
                 # three point arcs need three points
                 entities_ok[index] = False
 
             # store points in entity
             entity.points = points
+
+        for pair in chords.values():
+            # chords between the same two vertices are a way there and
+            # back again below the merge distance: they cancel in pairs
+            entities_ok[pair[len(pair) % 2 :]] = False
 
         # remove degenerate entities
         self.entities = self.entities[entities_ok]
